@@ -118,7 +118,13 @@ def E9():
             "libs": [{"name": "ly", "defs": [y]}, {"name": "lz", "defs": [z]}, {"name": "work", "defs": [y2, z2, x2, T]}]}
 
 
-BASES = {"E1": E1, "E2": E2, "E3": E3, "E4": E4, "E5": E5, "E6": E6, "E7": E7, "E9": E9}
+def _fresh(f):
+    """every call hands out a private copy (the constructors share port and leaf-cell dictionaries)"""
+    import copy
+    return lambda: copy.deepcopy(f())
+
+
+BASES = {k: _fresh(f) for k, f in {"E1": E1, "E2": E2, "E3": E3, "E4": E4, "E5": E5, "E6": E6, "E7": E7, "E9": E9}.items()}
 
 
 def bus_renderings(width):
